@@ -26,6 +26,10 @@ RULE = ("accepted generators (quoted spend lists from the cond grammar, quote an
         "with 11 memo shapes on every CREATE_COIN (absent, nil, EMPTY-atom/32/33/1-byte first memo, two memos, pair first memo, "
         "improper list, atom instead of list, 32-byte memo with non-nil tail) x arguments after the memo list (none, atom, nil, pair, "
         "improper tail), amount encodings and spend-level extras, x flag sets, "
+        "15 unknown-condition shapes (opcode = pair, nil, over-long atom, unknown 1/2/3-byte atom, improper tails; several with "
+        "CREATE_COIN arguments) before / between / after / around CREATE_COINs in consensus mode, with COST_CONDITIONS and under "
+        "NO_UNKNOWN_CONDS, and injected at random into the grammar's condition lists, 10 non-canonical first-byte forms of the "
+        "generator with and without SIMPLE_GENERATOR, "
         "twin spends sharing two of (parent, puzzle, amount), plus rejected and "
         "malformed generators (helpers are total) and /repo/generator-tests. "
         "non-trivial/distinct = distinct (source kind, memo shape, flag class, helper verdicts, spend-count bucket)")
@@ -36,6 +40,32 @@ TRUSTED = ["hand-written mirrors coq/Chain/Trusted.v tied to the helpers by this
 
 # no known findings for C09: F-C09-1 (empty first memo) and F-C09-2 (spend-level extras) were fixed in /repo by
 # 0a21e864 and 1aa0e3f6; both classes are generated and checked strictly in the default stream.
+
+
+def unknown_conds(r):
+    """conditions that consensus-mode validation (no NO_UNKNOWN_CONDS) skips as unknown and that the trusted helpers
+    must skip as well: name -> condition tree.  The opcode position holds a pair, nil, an over-long atom, or an unknown
+    one-/two-/three-byte atom; several carry the arguments of a CREATE_COIN so that a helper that does not skip them
+    reports a coin."""
+    ph = r.bytes(32)
+    cc_args = (ph, (canon(1), b""))
+    return {
+        "pair-op": ((b"\x01", b"\x02"), (canon(5), b"")),                 # ((1 . 2) 5)
+        "pair-op-51": ((b"\x33", b""), cc_args),                          # ((51) ph 1)
+        "pair-op-improper": ((b"\x01", b"\x02"), b"\x09"),                # ((1 . 2) . 9)
+        "nil-op": (b"", cc_args),                                         # (() ph 1)
+        "nil-op-noargs": (b"", b""),                                      # (())
+        "long-op-5": (b"\x00\x00\x00\x00\x33", cc_args),
+        "long-op-33": (r.bytes(33), (canon(5), b"")),
+        "unk1-02": (b"\x02", cc_args),
+        "unk1-ff": (b"\xff", (canon(5), b"")),
+        "unk1-00": (b"\x00", b""),
+        "unk2-0033": (b"\x00\x33", cc_args),                              # CREATE_COIN with a redundant leading zero
+        "unk2-3300": (b"\x33\x00", cc_args),
+        "unk2-0100": (b"\x01\x00", (canon(5), b"")),                      # two-byte opcode with a cost
+        "unk3-000033": (b"\x00\x00\x33", cc_args),
+        "unk1-improper": (b"\x02", b"\x07"),                              # (2 . 7)
+    }
 
 
 def memo_rewriter(rng, allow_empty=True):
@@ -90,6 +120,14 @@ def memo_rewriter(rng, allow_empty=True):
                 c = (c[0], (ph, (amt, b"" if m is None else (m, after))))
             out.append(c)
             t = t[1]
+        # unknown conditions (pair / nil / over-long / unknown opcodes) before, between and after the others: skipped
+        # by consensus-mode validation, and the helpers must skip exactly the same
+        if rng.chance(1, 3):
+            uc = unknown_conds(rng)
+            for _ in range(1 + rng.below(3)):
+                name = rng.choice(sorted(uc))
+                out.insert(rng.below(len(out) + 1), uc[name])
+                used.append("unknown-op:" + name.split("-")[0])
         return to_list(out, t)
 
     return rewrite, used
@@ -302,6 +340,25 @@ def run(ctx):
             cases.append({"program": ser((b"\x01", (to_list([spend]), b""))), "refs": [], "flags": F["DONT_VALIDATE_SIGNATURE"],
                           "max_cost": G.BLOCK, "kind": "memo-after", "tags": [("memo-after", "%d" % len(hint))],
                           "memo_used": ["trailing-after-memo"]})
+    # unknown conditions next to CREATE_COINs, every shape x every position (before / between / after / everywhere), in
+    # consensus mode (accepted by full validation, which skips them; every helper must skip them too), once more with
+    # COST_CONDITIONS, and once under NO_UNKNOWN_CONDS (full validation rejects; helpers stay total)
+    ur = rng.fork("unknown-ops")
+    for name in sorted(unknown_conds(ur)):
+        for pos in ("before", "between", "after", "all"):
+            u = unknown_conds(ur)[name]
+            cc1 = to_list([b"\x33", ur.bytes(32), canon(400), to_list([ur.bytes(32)])])
+            cc2 = to_list([b"\x33", ur.bytes(32), canon(500)])
+            conds = {"before": [u, cc1, cc2], "between": [cc1, u, cc2], "after": [cc1, cc2, u], "all": [u, cc1, u, cc2, u]}[pos]
+            spend = to_list([ur.bytes(32), (b"\x01", to_list(conds)), canon(1000), b""])
+            other = to_list([ur.bytes(32), (b"\x01", to_list([to_list([b"\x33", ur.bytes(32), canon(7)])])), canon(7), b""])
+            prog = ser((b"\x01", (to_list([spend, other] if ur.chance(1, 2) else [spend]), b"")))
+            fls = [F["DONT_VALIDATE_SIGNATURE"] | (F["COST_CONDITIONS"] if pos in ("between", "all") else 0)]
+            if pos == "all":
+                fls.append(F["DONT_VALIDATE_SIGNATURE"] | F["NO_UNKNOWN_CONDS"])
+            for fl in fls:
+                cases.append({"program": prog, "refs": [], "flags": fl, "max_cost": G.BLOCK, "kind": "unknown-op",
+                              "tags": [("unknown-op", name), ("pos", pos)], "memo_used": ["unknown-op:" + name]})
     # twins: spends that share two of (parent, puzzle, amount) and differ in the third and in the solution, so a
     # lookup that ignores one component of the coin returns the wrong spend
     tr = rng.fork("twins")
